@@ -12,7 +12,7 @@ from . import common, evalcommon as ec
 PROPERTY = 'C05'
 
 META = {
-    'bounds': {'quick': 'same design object listed twice; 4, 5 (7) objectives; another Problem created first; stored precision 0/2; objective returning an ndarray; batches of <=2 designs (dim<=2), <=2 objectives with every minimise/maximise/absent assignment, 0..2 constraints, '
+    'bounds': {'quick': 'second sweep with the same generator; same design object listed twice; 4, 5 (7) objectives; another Problem created first; stored precision 0/2; objective returning an ndarray; batches of <=2 designs (dim<=2), <=2 objectives with every minimise/maximise/absent assignment, 0..2 constraints, '
                         'all 4 initial states, batch evaluated twice; sweep of 3 designs; scalar bridge (Evaluator.evaluate_scalar, '
                         'ScipyOpt.run with scipy.optimize.minimize replaced by an arbitrary 3-point query sequence, NLopt._function)',
                'thorough': 'stored precision 0,1,2,3,12; batches of <=3 designs, 2 constraints; sweep of 4; 4-point scalar sequences'},
